@@ -134,6 +134,11 @@ func (mt *MoreThuente) Iterate(f, g float64) (Operation, float64, error) {
 	if mt.stage == 0 {
 		panic("morethuente: Init has not been called")
 	}
+	if math.IsNaN(mt.step) {
+		// Non-finite function values or derivatives have turned the trial
+		// step into NaN; every test below would be false for ever.
+		return NoOperation, mt.step, ErrLinesearcherFailure
+	}
 
 	gTest := mt.DecreaseFactor * mt.gInit
 	fTest := mt.fInit + mt.step*gTest
